@@ -520,11 +520,19 @@ Definition filter_types (types : list atype) : list atype :=
 Definition cleanup_attr (a : attr) : attr :=
   mk_attr (a_tag a) (a_name a) (a_ns a) (filter_types (a_types a)) (a_min a) (a_max a) (a_seq a) (a_index a).
 
+(* target.namespace (since /repo fix 6637729): group[0]'s, but "" when that is None and some class of the group
+   has the namespace "" *)
+Definition group_ns (g : list fclass) (first : fclass) : option str :=
+  match c_ns first with
+  | None => if existsb (fun c => match c_ns c with Some [] => true | _ => false end) g then Some [] else None
+  | ns => ns
+  end.
+
 Definition reduce_group (g : list fclass) : option fclass :=
   match g with
   | [] => None
   | first :: _ =>
-      Some (mk_fclass (c_qname first) (c_ns first) (existsb c_mixed g) (existsb c_nillable g)
+      Some (mk_fclass (c_qname first) (group_ns g first) (existsb c_mixed g) (existsb c_nillable g)
                       (map cleanup_attr (reduce_attributes (map c_attrs g))))
   end.
 
